@@ -131,10 +131,15 @@ def _case_limit(check):
     """Seconds one implementation run / oracle evaluation of one case may take.  A change that makes the real code loop
     for ever (or blow up exponentially) must become a verdict with the case as replay, not a hanging check; after three
     time-outs the limit drops so that shrinking and the rest of the run stay bounded."""
-    base = float(getattr(check, "case_timeout", 0) or os.environ.get("VERIF_CASE_TIMEOUT", 90))
+    # generous: one "case" may be a whole battery (C20's integration block runs a sub-check with thousands of items)
+    default = 300.0 if _TIER[0] == "quick" else 1200.0
+    base = float(getattr(check, "case_timeout", 0) or os.environ.get("VERIF_CASE_TIMEOUT", default))
     if _TIMEOUTS_SEEN[0] == 0:
         return base
-    return min(base, 10.0) if _TIMEOUTS_SEEN[0] < MAX_TIMEOUTS else min(base, 3.0)
+    return max(10.0, base / 5.0) if _TIMEOUTS_SEEN[0] < MAX_TIMEOUTS else max(3.0, base / 20.0)
+
+
+_TIER = ["quick"]
 
 
 MAX_TIMEOUTS = 5   # after that many cases without an answer the case loop stops: the verdict and its replay exist
@@ -265,6 +270,7 @@ def run(check, tier, seed):
                 lean_files.append(fn)
     findings = [f for f in load_findings() if f.get("property") == pid]
     known_ids = {f["id"] for f in findings if f.get("status") == "known"}
+    _TIER[0] = tier
     n_cases = check.quick_cases if tier == "quick" else check.thorough_cases
     rng = random.Random(seed)
     broken = []            # proof obligations / correspondence that no longer check
